@@ -108,6 +108,88 @@ pub fn run(run: &Run) -> (u64, u64) {
     (a + b, a + b)
 }
 
+/// The same bound through the real `go` command: parser, go handler (which clock belongs to which side,
+/// which increment, moves to go, the configured Move Overhead) and TimeStrategy::new; the limits are
+/// read through hook H5.
+pub fn via_go(run: &'static Run) -> (u64, u64) {
+    use crate::ucidrv::{Drv, Wait};
+    let rems: Vec<u64> = if run.quick() { vec![1, 2, 10, 57, 100, 200, 999, 1000, 5000, 30_000, 60_000, 600_000, 3_600_000] } else { remaining_grid(true).into_iter().step_by(9).collect() };
+    let incs = [0u64, 100, 5000];
+    let mtgs = [None, Some(1u32), Some(3), Some(40)];
+    let ohs = [0u64, 10, 1000];
+    let n: &'static AtomicU64 = Box::leak(Box::new(AtomicU64::new(0)));
+    let items: Vec<(u64, u64)> = rems.iter().flat_map(|r| ohs.iter().filter(move |o| **o <= r / 2).map(move |o| (*r, *o))).collect();
+    par_for(items.len(), |i| {
+        let (rem, oh) = items[i];
+        let work = move || {
+            let mut d = Drv::new(1).unwrap();
+            let _ = d.send(&format!("setoption name Move Overhead value {oh}"));
+            for white in [true, false] {
+                let _ = d.send(if white { "position fen 4k3/8/8/8/8/8/4P3/4K3 w - - 0 1" } else { "position fen 4k3/4p3/8/8/8/8/8/4K3 b - - 0 1" });
+                for inc in incs {
+                    for mtg in mtgs {
+                        for decoy in [0u8, 1, 2] {
+                            // the other side's clock: absent, huge, tiny
+                            let (orem, oinc) = match decoy {
+                                0 => (None, None),
+                                1 => (Some(rem * 50 + 1_000_000), Some(inc * 20 + 100_000)),
+                                _ => (Some(1u64), Some(0u64)),
+                            };
+                            let mut line = String::from("go");
+                            let (mt, ot, mi, oi) = if white { ("wtime", "btime", "winc", "binc") } else { ("btime", "wtime", "binc", "winc") };
+                            line.push_str(&format!(" {mt} {rem}"));
+                            if let Some(o) = orem {
+                                line.push_str(&format!(" {ot} {o}"));
+                            }
+                            if inc > 0 {
+                                line.push_str(&format!(" {mi} {inc}"));
+                            }
+                            if let Some(o) = oinc {
+                                line.push_str(&format!(" {oi} {o}"));
+                            }
+                            if let Some(m) = mtg {
+                                line.push_str(&format!(" movestogo {m}"));
+                            }
+                            line.push_str(" depth 1");
+                            n.fetch_add(1, Ordering::Relaxed);
+                            let case = J::obj(vec![("kind", J::s("clock-via-go")), ("overhead_ms", J::i(oh)), ("white_to_move", J::Bool(white)), ("line", J::s(line.clone()))]);
+                            let key = format!("overhead {oh} white {white} `{line}`");
+                            crate::verif_hooks::take_limits();
+                            if let Err(e) = d.send(&line) {
+                                run.violation("go-with-clocks-failed", format!("go-with-clocks-failed|{key}"), case, format!("{key}: {e}"));
+                                return;
+                            }
+                            let lim = crate::verif_hooks::take_limits();
+                            if d.wait_search(std::time::Duration::from_secs(60)) != Wait::Finished {
+                                run.violation("go-with-clocks-failed", format!("go-with-clocks-search|{key}"), case, format!("{key}: the search did not finish"));
+                                return;
+                            }
+                            d.take();
+                            let Some((soft, hard)) = lim.last().copied() else {
+                                run.machinery_error(format!("{key}: hook H5 reported no limits"));
+                                return;
+                            };
+                            let bound_us = (rem - oh) * 1000 / 2 + 1000;
+                            if hard.as_micros() as u64 > bound_us {
+                                run.violation("hard-limit-too-large", format!("hard-limit-via-go|{key}"), case.clone(), format!("{key}: hard limit {hard:?} exceeds half of the mover's remaining time after overhead ({} ms)", (rem - oh) / 2));
+                            }
+                            if soft > hard + Duration::from_micros(1) {
+                                run.violation("soft-above-hard", format!("soft-above-hard-via-go|{key}"), case, format!("{key}: soft {soft:?} > hard {hard:?}"));
+                            }
+                        }
+                    }
+                }
+            }
+        };
+        if crate::util::with_timeout(300, work).is_none() {
+            run.violation("go-with-clocks-failed", format!("go-with-clocks-blocked|rem {rem} overhead {oh}"), J::obj(vec![("kind", J::s("clock-via-go")), ("overhead_ms", J::i(oh)), ("line", J::s(format!("(family for remaining {rem})")))]), "the command loop blocked or the helper thread died".into());
+        }
+    });
+    let a = n.load(Ordering::Relaxed);
+    run.family("CLOCK-VIA-GO", &format!("remaining {:?} ms x overhead {{0,10,1000}} (<= remaining/2, set through setoption) x side to move x increment {{0,100,5000}} x movestogo {{none,1,3,40}} x other side's clock {{absent, huge, tiny}}: sent as `go wtime .. btime .. depth 1` to the real command loop; limits read through hook H5", rems), a, a, true, "");
+    (a, a)
+}
+
 /// Part 2: the real search under a virtual clock that advances with the node count (1 microsecond per
 /// node, slower than the checked build measures): virtual time at return < remaining time.
 pub fn virtual_clock_runs(run: &Run) -> (u64, u64) {
@@ -161,7 +243,12 @@ pub fn virtual_clock_runs(run: &Run) -> (u64, u64) {
     (a, a)
 }
 
-pub fn replay(run: &Run, case: &J) {
+pub fn replay(run: &'static Run, case: &J) {
+    if case.get("kind").and_then(|x| x.as_str()) == Some("clock-via-go") {
+        println!("re-running the CLOCK-VIA-GO family (a few seconds); stored line: {:?}", case.get("line"));
+        via_go(run);
+        return;
+    }
     let gi = |k: &str| case.get(k).and_then(|x| x.as_i64()).unwrap_or(0);
     let gb = |k: &str| matches!(case.get(k), Some(J::Bool(true)));
     if case.get("kind").and_then(|x| x.as_str()) == Some("clock") {
